@@ -98,7 +98,9 @@ def node_sexp(n, owner=None):
     if isinstance(n, Test):
         a_s, a_t = applicable(owner, n)
         kill = "-"
-        if n.kill:
+        if getattr(n, "model_kill", None):
+            kill = "(%d %s %d)" % n.model_kill        # model only: e.g. the alarm handler's exit while the script sleeps
+        elif n.kill:
             how = n.kill[2]
             kill = "(%d %s %d)" % (kill_index(owner, n), "sig" if how[0] == "sig" else "exit", how[1])
         return "(T %d %d %d %d (%s) (%s) (%s) %s)" % (
